@@ -52,7 +52,7 @@ def gen_sp_case(rng, flavor):
 
 
 def _gen_case(rng, flavor=None, size=None):
-    flavor = flavor or rng.choice(['fs', 'fs', 'wrap'])
+    flavor = flavor or rng.choice(['fs', 'fs', 'fs', 'wrap', 'wrap', 'wrapfs'])
     if rng.random() < 0.2:
         return gen_sp_case(rng, flavor)
     size = size or rng.choice([8, 14, 22, 32])
@@ -114,7 +114,7 @@ def _gen_case(rng, flavor=None, size=None):
             else:
                 ops.append(['consume', rng.choice(linked), gen_data(rng)] + (['exdev'] if rng.random() < 0.3 else []))
                 clean = False
-        elif r < 0.47 and clean and flavor == 'fs' and ncommit and rng.random() < 0.25:
+        elif r < 0.47 and clean and flavor != 'wrap' and ncommit and rng.random() < 0.25:
             ops.append(['reopen'])
         elif r < 0.47 and clean and rng.random() < 0.4:
             # commit attempted with the blob still open for writing (ValueError), close, abort, retry
@@ -185,7 +185,7 @@ def _gen_case(rng, flavor=None, size=None):
             ops.append(['faultcommit', rng.randrange(1, 9)])
             end_txn(True)
             ncommit += 1
-        elif r < 0.96 and ncommit and flavor == 'fs':
+        elif r < 0.96 and ncommit and flavor != 'wrap':
             if not clean:
                 ops.append(['commit', None])
                 end_txn(True)
@@ -205,7 +205,7 @@ def _gen_case(rng, flavor=None, size=None):
             if not clean:
                 ops.append(['commit', None])
                 end_txn(True)
-            if flavor == 'fs' and rng.random() < 0.3:
+            if flavor != 'wrap' and rng.random() < 0.3:
                 ops.append(['failpack'])                    # abandoned pack (disk full), then …
             ops.append(['pack', rng.randrange(0, 6)] + (['days'] if rng.random() < 0.2 else []))
             clean = True
@@ -469,7 +469,20 @@ def run_case(case, root):
                     if k not in got:
                         if after == 'pack':
                             dup = flavor == 'fs' and k in dupkeys
-                            if dup:
+                            unloadable = False
+                            if flavor == 'wrapfs':
+                                # _packUndoing keeps a file iff loadSerial(oid, tid) succeeds.  A record that the base
+                                # pack kept ONLY as the target of a back pointer from after the pack time is listed by
+                                # the iterator but cannot be loaded any more (no prev chain leads to it): its file goes
+                                try:
+                                    env.storage.loadSerial(p64(k[0]), p64(k[1]))
+                                except Exception:
+                                    unloadable = True
+                            if unloadable:
+                                cnt('wrapfs:pack-removed-file-of-unloadable-back-pointer-target')
+                                del files[k]
+                                gone.add(k)
+                            elif dup:
                                 # superseded duplicate record in a multi-undo transaction, kept through a back pointer
                                 # from after the pack time (corpus/C13/repro_pack_duplicate_undo_record.py)
                                 bad('C13:pack-removes-blob-of-duplicated-record', 'pack removed the blob file of kept '
@@ -477,6 +490,7 @@ def run_case(case, root):
                                 faulted[0] = True          # the model (one record per oid and transaction) does not follow
                             else:
                                 bad('C13:nonundo-pack-removes-kept-blob' if flavor == 'wrap' else
+                                    'C13:pack-removes-kept-blob:undo-capable-base' if flavor == 'wrapfs' else
                                     'C13:pack-removes-kept-blob',
                                     'pack removed the blob file of revision %r whose record is kept' % (k,))
                             if flavor == 'wrap' or dup:
@@ -491,6 +505,11 @@ def run_case(case, root):
                             % (k, got[k][:40], b[:40], after))
                 for k in got:
                     if k not in files and not inflight:
+                        if flavor == 'wrapfs' and k in {(o, t) for o, t, kd in env.records() if kd == 'none'}:
+                            # by design of the legacy wrapper: undoing a creation keeps a copy of the blob under the
+                            # undo tid "in case a user wishes to undo this undo" (the record is an un-creation)
+                            cnt('wrapfs:uncreation-keeps-copy')
+                            continue
                         if env.intruder_aborted:
                             bad('C13:abort-before-vote-leaves-blob', 'blob file %r of a transaction that began while '
                                 'another one was in tpc_finish (dirty list reset outside the commit lock) and was then '
@@ -1349,7 +1368,7 @@ def run_case(case, root):
                         ob = ro = co = None
                         check_other_db(kind)
                     elif kind == 'reopen':
-                        if flavor != 'fs' or case.get('mdb') or V['dirty'] or V['created'] or V['root']:
+                        if flavor == 'wrap' or case.get('mdb') or V['dirty'] or V['created'] or V['root']:
                             cnt('skip')
                             continue
                         # close the database and open the same files again (saved index, same blob directory)
@@ -1375,7 +1394,7 @@ def run_case(case, root):
                         reset_view()
                         boundary('reopen')
                     elif kind == 'failpack':
-                        if flavor != 'fs' or not txns or V['dirty'] or V['created'] or V['root']:
+                        if flavor == 'wrap' or not txns or V['dirty'] or V['created'] or V['root']:
                             cnt('skip')
                             continue
                         tm0.abort()
@@ -1560,6 +1579,9 @@ def run_case(case, root):
         # the model has no raw-fault operation: a faulted history is judged by the oracle alone
         return dict(lines=[], real=[], problems=problems, nontrivial=nontrivial[0], stats=stats,
                     tie=env.tie_breaks)
+    if flavor == 'wrapfs':
+        # oracle only: the wrapper's own undo (BlobStorage.undo) and _packUndoing are not driven through the model
+        return dict(lines=[], real=[], problems=problems, nontrivial=nontrivial[0], stats=stats, tie=env.tie_breaks)
     return dict(lines=['reset ' + flavor] + env.lines + extra[0], real=['ok'] + env.real + extra[1],
                 problems=problems, tie=env.tie_breaks,
                 nontrivial=nontrivial[0], stats=stats)
